@@ -77,6 +77,25 @@ int main(void)
     CHECK(same, "C08: the message of a raised library exception is the concatenation of the stream representations of its arguments");
     WITNESS_AT(st == 1, "exception caught with its message");
     OBS("st=%u len=%u\n", st, len); OBS_STR("out", out, len < CAP ? len : CAP);
+#elif defined(MODE_WHAT2)
+    /* a message is the concatenation of the stream representations of ITS OWN arguments: formatting state set by the arguments of an
+       earlier exception (std::hex) must not leak into a later one */
+    u8 a[AL0 + 1]; in_fill(a, AL0);
+    u32 n = in_range(0, 255), n2 = in_range(0, 99);
+    enum { CAP = AL0 + 8 };
+    u8 out1[CAP], out[CAP]; u32 len1 = 0, len = 0; memset(out, 0, sizeof out); memset(out1, 0, sizeof out1);
+    u32 st = k_what_twice(a, AL0, n, n2, out1, &len1, out, CAP, &len);
+    u8 e1[CAP + 4], e[CAP + 4]; u32 el1 = 0, el = 0;
+    for (u32 k = 0; k < AL0; ++k) e1[el1++] = a[k];
+    if (n >= 16) e1[el1++] = "0123456789abcdef"[n / 16]; e1[el1++] = "0123456789abcdef"[n % 16];
+    if (n2 >= 10) e[el++] = '0' + n2 / 10; e[el++] = '0' + n2 % 10;
+    for (u32 k = 0; k < AL0; ++k) e[el++] = a[k];
+    int same1 = len1 == el1; for (u32 k = 0; same1 && k < el1; ++k) if (out1[k] != e1[k]) same1 = 0;
+    CHECK(same1, "C08: a stream manipulator among the arguments of raise() acts on the arguments that follow it");
+    int same = st == 1 && len == el; for (u32 k = 0; same && k < el; ++k) if (out[k] != e[k]) same = 0;
+    CHECK(same, "C08: the message of a raised library exception is the concatenation of the stream representations of ITS arguments (nothing is carried over from an earlier exception)");
+    WITNESS_AT(st == 1 && n2 >= 16, "second exception with a number that reads differently in hexadecimal");
+    OBS("st=%u len=%u len1=%u\n", st, len, len1); OBS_STR("out", out, len < CAP ? len : CAP);
 #else
 #error "no MODE"
 #endif
